@@ -17,6 +17,7 @@ UNIT = dict(
     spec=['spec.rs', 'xrefspec.rs', 'docspec.rs'],
     post=['grammar.rs'],
     types=[
+        dict(file='src/reader.rs', kind='const', name='MAX_BRACKET'),
         dict(file='src/object.rs', kind='type', name='ObjectId'),
         dict(file='src/object.rs', kind='enum', name='StringFormat'),
         dict(file='src/object.rs', kind='struct', name='Stream'),
@@ -57,7 +58,7 @@ UNIT = dict(
         dict(file=W, impl='Writer', name='need_end_separator', rules=dict(no_sink=True)),
         dict(file=W, impl='Writer', name='write_object', rules=dict(subst=ITOA + [dict(rule='R5', lit='value.fract() == 0.0 && value.abs() >= 9.223372e18', to='f32_integral_beyond_i64(*value)', count=1, note='f32 test replaced by an uninterpreted predicate')])),
         dict(file=W, impl='Writer', name='write_name'),
-        dict(file=W, impl='Writer', name='write_string'),
+        dict(file=W, impl='Writer', name='write_string', rules=dict(subst=[dict(rule='R5', lit='crate::reader::MAX_BRACKET', to='MAX_BRACKET', optional=True, note='constant cut from reader.rs into the generated module')])),
         dict(file=W, impl='Writer', name='write_array'),
         dict(file=W, impl='Writer', name='write_dictionary', rules=dict(loops={1: dict(kind='pairs', seq='dictionary.entries')})),
         dict(file=W, impl='Writer', name='write_stream'),
